@@ -102,6 +102,18 @@ func loadEngine(repo string, speclibDir string) (*Engine, error) {
 			}
 		}
 	}
+	// functions implementing a functype inherit its clauses (checked against their own body)
+	for _, c := range e.contracts.Funcs {
+		if c.Implements == "" {
+			continue
+		}
+		ft := e.contracts.Funcs[c.Implements]
+		if ft == nil {
+			return nil, fmt.Errorf("%s implements unknown %s", c.Key, c.Implements)
+		}
+		c.Requires = append(append([]Clause{}, ft.Requires...), c.Requires...)
+		c.Ensures = append(append([]Clause{}, ft.Ensures...), c.Ensures...)
+	}
 	for _, g := range e.contracts.Ghosts {
 		e.u.ghost[g.Type+"."+g.Field] = specSort(g.Sort)
 	}
@@ -213,7 +225,7 @@ func (e *Engine) resolveType(pkg string, expr string) (types.Type, error) {
 		return types.Typ[types.String], nil
 	case "float64":
 		return types.Typ[types.Float64], nil
-	case "ref":
+	case "ref", "func":
 		return types.Typ[types.UnsafePointer], nil
 	}
 	p := e.pkgByShort(pkg)
@@ -327,8 +339,27 @@ func appendUniq(l []*ssa.Function, f *ssa.Function) []*ssa.Function {
 }
 
 func sigKey(s *types.Signature) string {
-	// ignore receiver
-	return types.NewSignatureType(nil, nil, nil, s.Params(), s.Results(), s.Variadic()).String()
+	// receiver and parameter names are ignored
+	var sb strings.Builder
+	sb.WriteString("func(")
+	for i := 0; i < s.Params().Len(); i++ {
+		if i > 0 {
+			sb.WriteString(",")
+		}
+		if s.Variadic() && i == s.Params().Len()-1 {
+			sb.WriteString("...")
+		}
+		sb.WriteString(s.Params().At(i).Type().String())
+	}
+	sb.WriteString(")(")
+	for i := 0; i < s.Results().Len(); i++ {
+		if i > 0 {
+			sb.WriteString(",")
+		}
+		sb.WriteString(s.Results().At(i).Type().String())
+	}
+	sb.WriteString(")")
+	return sb.String()
 }
 
 // addrKey returns the type-based heap key written through address value a.
@@ -416,7 +447,7 @@ func (e *Engine) instrEffects(f *ssa.Function, in ssa.Instruction) []string {
 		md, mv, _, _ := e.mapKeys(v.Map.Type())
 		return []string{md, mv}
 	case *ssa.Send:
-		return []string{"CH"}
+		return []string{"G|chan.sent|Int", "GA|chan.vals|" + e.u.sortOf(v.X.Type())}
 	case *ssa.Next:
 		return []string{"IT"}
 	case *ssa.Go:
@@ -491,7 +522,7 @@ func (e *Engine) callEffects(f *ssa.Function, c *ssa.CallCommon) []string {
 			md, mv, _, _ := e.mapKeys(c.Args[0].Type())
 			return []string{md, mv}
 		case "close":
-			return []string{"CH"}
+			return []string{"G|chan.closed|Bool"}
 		}
 		return nil
 	case *ssa.Function:
